@@ -214,16 +214,29 @@ impl<D: DataMut> GGLWECompressed<D> {
 
 impl<D: DataMut> ReaderFrom for GGLWECompressed<D> {
     fn read_from<R: std::io::Read>(&mut self, reader: &mut R) -> std::io::Result<()> {
-        self.k = TorusPrecision(reader.read_u32::<LittleEndian>()?);
-        self.base2k = Base2K(reader.read_u32::<LittleEndian>()?);
-        self.dsize = Dsize(reader.read_u32::<LittleEndian>()?);
-        self.rank_out = Rank(reader.read_u32::<LittleEndian>()?);
+        // Temporaries first: `self` is only touched once the whole object has been read.
+        let k: TorusPrecision = TorusPrecision(reader.read_u32::<LittleEndian>()?);
+        let base2k: Base2K = Base2K(reader.read_u32::<LittleEndian>()?);
+        let dsize: Dsize = Dsize(reader.read_u32::<LittleEndian>()?);
+        let rank_out: Rank = Rank(reader.read_u32::<LittleEndian>()?);
         let seed_len: u32 = reader.read_u32::<LittleEndian>()?;
-        self.seed = vec![[0u8; 32]; seed_len as usize];
-        for s in &mut self.seed {
-            reader.read_exact(s)?;
+        // The count comes from the stream: collect the seeds as they arrive instead of allocating seed_len * 32 bytes up front.
+        let mut seed: Vec<[u8; 32]> = Vec::new();
+        for _ in 0..seed_len {
+            let mut s: [u8; 32] = [0u8; 32];
+            reader.read_exact(&mut s)?;
+            seed.push(s);
         }
-        self.data.read_from(reader)
+        if base2k.0 == 0 || dsize.0 == 0 {
+            return Err(std::io::Error::new(std::io::ErrorKind::InvalidData, "GGLWECompressed: base2k = 0 or dsize = 0"));
+        }
+        self.data.read_from(reader)?;
+        self.k = k;
+        self.base2k = base2k;
+        self.dsize = dsize;
+        self.rank_out = rank_out;
+        self.seed = seed;
+        Ok(())
     }
 }
 
